@@ -27,7 +27,7 @@ import nfc.tag.tt2
 import nfc.tag.tt3
 import nfc.tag.tt4
 
-from sim.c08_tags import AnyClf, Loop, T2Any, T1Any, T3Any, T4Any, T4Adv, Scripted, LIMIT
+from sim.c08_tags import AnyClf, Loop, T2Any, T1Any, T3Any, T4Any, T4Adv, T4ApduAdv, Scripted, LIMIT
 
 logging.disable(logging.CRITICAL)
 
@@ -703,7 +703,8 @@ def run_t4(run, c, sim=None, kind='t4'):
             if apdu[1] == 0xB0 and sel == x['fid'] and r.startswith('ok:'):
                 off = apdu[2] << 8 | apdu[3]
                 got = (len(r) - 3) // 2 - 2
-                if off + max(got, 0) > limit:
+                le = (apdu[4] or 256) if len(apdu) == 5 else 0
+                if got <= le and off + max(got, 0) > limit:      # answers longer than Le are rejected by the reader
                     bad = True
         if bad:
             ck.violation(kind + ':unsound:outside-data-area', '%s: NDEF file read beyond the maximum file size %d' % (kind, limit), c)
@@ -721,6 +722,19 @@ def run_t4(run, c, sim=None, kind='t4'):
             if o['changed'] != exp:
                 run.mismatch(kind + '-has_changed', c, o['changed'], exp)
     run.model('t4sess ' + script, chk)
+    if c.get('write_after') and tag._ndef is not None:
+        # writing and formatting against the same card: they return, or raise a documented exception, within the guard
+        for what, fn in (('write', lambda: setattr(tag.ndef, 'octets', b'\xd0\x00\x00')), ('format', lambda: tag.format(wipe=0))):
+            try:
+                fn()
+            except (nfc.tag.TagCommandError, AttributeError, ValueError):
+                pass            # documented: command error, not writeable / no NDEF, data too long
+            except Loop:
+                ck.violation('%s:unbounded:%s' % (kind, what), '%s: %s sends more commands than the guard (%d) allows: it does not stop'
+                             % (kind, what, c.get('limit', LIMIT)), c)
+                break
+            except Exception as e:  # noqa
+                ck.violation('%s:exception:%s:%s' % (kind, what, type(e).__name__), '%s: %s raises %s' % (kind, what, type(e).__name__), c)
     ck.case((kind, json.dumps(c, sort_keys=True)), o['r1'] != 'none' or len(log) > 3,
             {'kind': kind, 'cc': c.get('files', {}).get('e103', '')[:46], 'stop': c['stop'], 'class': act, 'ndef': o['r1'][:60], 'apdus': len(log)})
 
@@ -806,6 +820,18 @@ def run_disp(run, c):
     ck.case(('disp', c['sens'], c['sel']), True)
 
 
+def run_advapdu(run, c):
+    """a Type 4 card that answers every APDU after the first c['good'] with the same response, for ever"""
+    i = c['inner']
+    sim = T4ApduAdv(c['good'], unhex(c['answer']), files={unhex(k): unhex(v) for k, v in i['files'].items()},
+                    aids=[unhex(a) for a in i['aids']], ats=ans(i['ats']), typeb=i['typeb'], sensb=unhex(i['sensb']),
+                    attrib=ans(i['attrib']), cmiu=i['cmiu'])
+    c2 = dict(i)
+    c2.update(kind='advapdu', inner=i, good=c['good'], answer=c['answer'], limit=c.get('limit', 400), isodep=False, stop=None,
+              mode='timeout', write_after=True)
+    run_t4(run, c2, sim=sim, kind='t4apdu')
+
+
 def run_adv(run, c):
     """a Type 4 card that turns adversarial at the ISO-DEP block level after c['good'] good answers"""
     sim = T4Adv(mk_t4(c['inner']), c['good'], c['advmode'], c.get('byte', 2))
@@ -816,7 +842,7 @@ def run_adv(run, c):
     run_t4(run, c2, sim=sim, kind='t4adv-' + c['advmode'])
 
 
-RUNNERS = {'adv': run_adv, 't2': run_t2, 't1': run_t1, 't3': run_t3, 't4': run_t4, 'raw': run_raw, 'disp': run_disp}
+RUNNERS = {'adv': run_adv, 'advapdu': run_advapdu, 't2': run_t2, 't1': run_t1, 't3': run_t3, 't4': run_t4, 'raw': run_raw, 'disp': run_disp}
 
 
 # ------------------------------------------------------------------------------ generators
@@ -1250,6 +1276,14 @@ def main():
                 for b in (bytes_ if good in (0, 4) else bytes_[:1]):
                     go({'kind': 'adv', 'inner': inner, 'good': good, 'advmode': advmode, 'byte': b,
                         'limit': 3 * (W_MAX + 100) if long_run else 400})
+    # ---- APDU level adversaries: after 0..k good APDUs every APDU (SELECT application / file, READ BINARY of CC, NLEN, data,
+    #      UPDATE BINARY of a following write / format) is answered with the same status word / response, for ever
+    answers = ['6c00', '6c01', '6c0f', '6cff', '6100', '610f', '6700', '6982', '6a82', '6b00', '9000', 'aa9000', '00039000',
+               'ab' * 300 + '9000', '0000', '90', '', '6c', 'd00000' + '6c03']
+    inner_w = act_case_t4(ats='067577810280')
+    for answer in answers:
+        for good in range(0, 16):
+            go({'kind': 'advapdu', 'inner': inner_w if good % 2 == 0 or quick else act_case_t4(typeb=True), 'good': good, 'answer': answer})
     run.flush()
     mark('adversarial')
 
